@@ -7,7 +7,13 @@ ASan/UBSan build with strict validation on; the appended bytes are judged by
       the same canonical text for AsmJit's bytes and for LLVM's bytes,
   (C) length: objdump and llvm-objdump must end an instruction exactly where AsmJit stopped appending, with nothing
       but padding behind it,
-  (D) when neither independent decoder can decode bytes of a form they both know -> undecodable.
+  (D) when neither independent decoder can decode bytes of a form they both know -> undecodable,
+  (E) an accepted case whose operands were generated to lie outside every database form of the mnemonic (immediate one
+      past the field, wrong broadcast factor) -> accepts-unencodable: no byte sequence can mean what was asked.
+Extended dimensions (x86gen.Gen.ext): implicit operands omitted, ModMR/ModRM on every prefix class, long form on
+non-branches, branch hints / size optimisation through EncodingOptions, the address-size x index-type matrix (incl. vector
+indexes), disp8*N boundaries under every addressing style. Each has measured counters; a dimension that judged nothing makes
+the run inconclusive.
 """
 import collections
 import json
@@ -32,13 +38,24 @@ def reason_class(msg):
     return m[:70]
 
 
-def gap_class(c, byname, mode):
+def gap_class(c, byname, mode, round11=False):
     """Classes of accepted-but-unencodable input that AsmJit's validator does not reject (see DESIGN.md, findings):
     features that only EVEX can express used with an instruction (signature) that has no EVEX encoding, and
     explicit memory operands of instructions whose memory operand is implicit (string instructions)."""
     cands = xdec.candidates(c, byname, mode)
     if not cands:
         return None
+    gp = ("gp16", "gp32", "gp64")
+    # (round11: classes introduced with C01's extended dimensions; C14 reuses judge_mode and keeps its own classification)
+    for op in (c["ops"] if round11 else ()):
+        if op[0] == "M" and op[1]["index"]:
+            b, x = op[1]["base"], op[1]["index"]
+            if b and b[0] in gp and x[0] in gp and b[0] != x[0]:
+                return "validator-gap:base-and-index-of-different-address-size"
+            if b and b[0] == "gp16" and x[0] in ("xmm", "ymm", "zmm"):
+                return "validator-gap:vector-index-with-16-bit-base"
+    if round11 and c["opts"] & G.OPT_MODMR and c["name"].startswith("kmov") and len(c["ops"]) == 2 and all(op[0] == "R" and op[1] == "k" for op in c["ops"]):
+        return "enc:modmr-kmov-k-k-uses-the-memory-store-opcode"
     # EVEX forms of extensions this AsmJit release does not encode (it only knows their VEX forms) do not count
     any_evex = any(f["prefix"] == "EVEX" and not (set(f.get("ext") or {}) & {"AVX10_2", "APX_F"}) for f, _ in cands)
     if not any_evex:
@@ -64,6 +81,41 @@ def gap_class(c, byname, mode):
     return None
 
 
+DIMS = ("implicit_omitted", "modmr_modrm_non_legacy", "long_form_non_branch", "accumulator_short_form", "branch_hints",
+        "optimize_for_size", "address_size_matrix", "address_size_matrix_vector_index", "disp8xN_other_styles")
+
+
+def dims_of(c, form):
+    """extended dimensions a case belongs to (coverage accounting)"""
+    v = c["variant"]
+    out = []
+    if v.startswith("impomit"):
+        out.append("implicit_omitted")
+    if v.split("-")[0] in ("modmr", "modrm") and form["prefix"] != "":
+        out.append("modmr_modrm_non_legacy")
+    if v.startswith("long-"):
+        out.append("long_form_non_branch")
+    if v in ("acc", "long-acc"):
+        out.append("accumulator_short_form")
+    if v.startswith(("taken", "nottaken")):
+        out.append("branch_hints")
+    if v.startswith("optsize"):
+        out.append("optimize_for_size")
+    if v.startswith("mem-asz-"):
+        out.append("address_size_matrix")
+        if v.endswith("v"):
+            out.append("address_size_matrix_vector_index")
+    if v.startswith(("mem-disp8xN-", "bcst-disp8xN-")):
+        out.append("disp8xN_other_styles")
+    return out
+
+
+UNENCODABLE = re.compile(r"^(imm\d+-oob|bcst-wrong|bcst-illegal)$")
+
+
+_GAP_CLASS = gap_class
+
+
 def _emit(exe, lines, extra_args=()):
     d = os.path.join(build.CACHE, "tmp")
     os.makedirs(d, exist_ok=True)
@@ -77,12 +129,21 @@ def _emit(exe, lines, extra_args=()):
     return rc, out, err
 
 
-def judge_mode(cases, results, forms, byname, mode, stats, viol, samples):
+def judge_mode(cases, results, forms, byname, mode, stats, viol, samples, round11=False):
     """apply all oracles to the accepted cases of one mode"""
+    def gap_class(c, byname, mode):
+        return _GAP_CLASS(c, byname, mode, round11)
+
     sel = [(c, r) for c, r in zip(cases, results) if r["err"] == 0 and r["bytes"]]
     if not sel:
         return
     raws = [bytes.fromhex(r["bytes"]) for c, r in sel]
+    # EncodingOptions::kOptimizeForSize: the documented r64 -> r32 rewrite is judged as the equivalent case (text and rule)
+    for i, (c, r) in enumerate(sel):
+        alt = xdec.optsize_alternative(c)
+        if alt is not None and xdec.check(alt, byname, raws[i], mode)[0] == "ok":
+            sel[i] = (alt, r)
+            stats["optsize_rewrites_judged"] += 1
     texts = [x86text.render(c, forms[c["form"]]) for c, r in sel]
     lb = x86tools.llvm_assemble(texts, mode)
     o1 = x86tools.objdump(x86tools.layout(raws), mode)
@@ -98,6 +159,21 @@ def judge_mode(cases, results, forms, byname, mode, stats, viol, samples):
         # (A) database rule
         v, d = xdec.check(c, byname, raw, mode)
         stats["xdec_" + v] += 1
+        # (E) operands generated outside every form of the mnemonic
+        reported_unenc = False
+        if round11 and UNENCODABLE.match(c["variant"]):
+            reported_unenc = not xdec.candidates(c, byname, mode)
+            if not reported_unenc:
+                stats["unenc_in_another_form"] += 1
+            else:
+                stats["unenc_accepted"] += 1
+                kind = "imm-oob" if c["variant"].startswith("imm") else c["variant"]
+                if kind == "bcst-illegal" and any(f.get("broadcast") for f in byname.get(c["name"], [])):
+                    kind = "bcst-on-operand-without-broadcast"   # the mnemonic has a broadcast form, this signature / operand has not
+                viol.append(("accepts-unencodable:%s:%s" % (kind, c["name"]),
+                             "AsmJit accepts operands that no database form of %s can express (%s) and emits %s (objdump: `%s`); case: %s"
+                             % (c["name"], {"imm-oob": "immediate outside the field", "bcst-wrong": "broadcast factor that does not match the vector length"}.get(kind, "broadcast on an operand that has none"),
+                                raw.hex(), x86tools.decode_slot(o1[i], len(raw))[1], line), line))
         # (B)/(C) independent decoders
         ok1, t1 = x86tools.decode_slot(o1[i], len(raw))
         okl, tl = x86tools.decode_slot(l1[i], len(raw))
@@ -107,7 +183,7 @@ def judge_mode(cases, results, forms, byname, mode, stats, viol, samples):
         if obj_knows and lb[i] is not None:
             ok2, t2 = x86tools.decode_slot(o2[i], len(lb[i]))
             if "(bad)" not in t2 and t2 != "":
-                dec = "agree" if x86tools.canon(t1) == x86tools.canon(t2) else "disagree"
+                dec = "agree" if x86tools.canon(t1, mode) == x86tools.canon(t2, mode) else "disagree"
                 if dec == "disagree":
                     viol.append((gap_class(c, byname, mode) or "dec-disagree:%s" % c["name"],
                                  "objdump reads AsmJit's bytes %s as `%s` but the same instruction assembled by llvm-mc from `%s` (%s) reads `%s`; case: %s"
@@ -121,15 +197,23 @@ def judge_mode(cases, results, forms, byname, mode, stats, viol, samples):
             viol.append(("length:llvm:%s" % c["name"], "llvm-objdump does not end an instruction at the %d bytes AsmJit appended (%s): `%s`; case: %s" % (len(raw), raw.hex(), tl, line), line))
         if obj_knows or llvm_knows:
             form_decodable[c["form"]] += 1
-        elif v != "ok":
+        elif v != "ok" and not reported_unenc:
             pending_undec.append((c, raw, line, v, d))
-        if v == "mismatch":
+        if v == "mismatch" and dec == "agree" and c["opts"] & (G.OPT_MODMR | G.OPT_MODRM):
+            # the direction options select the sibling opcode, whose database record may list the memory operand only
+            # (F2 0F 11 /r movsd m64,xmm is a valid register form architecturally): the independent decoders are the judge
+            stats["direction_option_judged_by_decoders_only"] += 1
+        elif v == "mismatch":
             kind = "db-rule-vs-decoders" if dec == "agree" else "enc"
             key = "%s:%s:%s" % (kind, reason_class(d), c["name"])
             gap = gap_class(c, byname, mode)
             if gap:
                 key = gap
             viol.append((key, "bytes %s violate the database encoding rule for %s: %s; decoders: %s (`%s`); case: %s" % (raw.hex(), c["name"], d, dec, t1, line), line))
+        for dim in dims_of(c, forms[c["form"]]):
+            stats["dim_acc_" + dim] += 1
+            if v == "ok" or dec == "agree":
+                stats["dim_judged_" + dim] += 1
         if v == "ok" or dec == "agree":
             stats["judged"] += 1
             nontrivial = any(op[0] == "M" for op in c["ops"]) or any(op[0] == "R" and op[2] >= 8 for op in c["ops"]) or \
@@ -148,20 +232,44 @@ def judge_mode(cases, results, forms, byname, mode, stats, viol, samples):
             stats["no_decoder"] += 1
 
 
-def worker(arg):
-    shard, nshards, seed, budget, deep, exe, replay_lines = arg
+def _tuplify(c):
+    """case dict read back from a replay file (JSON turned the operand tuples into lists)"""
+    ops = []
+    for op in c["ops"]:
+        if op[0] == "M":
+            m = dict(op[1])
+            for k in ("base", "index"):
+                if m[k]:
+                    m[k] = tuple(m[k])
+            ops.append(("M", m))
+        else:
+            ops.append(tuple(op))
+    return dict(c, ops=ops, extra=tuple(c["extra"]) if c.get("extra") else None)
+
+
+def generate(shard, nshards, seed, budget, deep, scale=1.0, ext=True):
+    """the C01 workload of one shard (also driven by C13, which compares it with validation switched off)"""
     forms = isadb.x86_forms()
-    byname = collections.defaultdict(list)
-    for f in forms:
-        byname[f["name"]].append(f)
     rng = common.Rng(seed).fork("c01-%d" % shard)
     gen = G.Gen(rng, deep)
+    gen.ext = ext
+    gen.ext_fraction = min(1.0, scale)
     cases = []
     for fi, f in enumerate(forms):
         if fi % nshards != shard:
             continue
         for mode in G.modes_of(f):
             cases += gen.cases_for_form(f, mode, budget)
+    return cases
+
+
+def worker(arg):
+    shard, nshards, seed, budget, deep, exe, replay_cases, scale = arg
+    forms = isadb.x86_forms()
+    byname = collections.defaultdict(list)
+    for f in forms:
+        byname[f["name"]].append(f)
+    cases = replay_cases if replay_cases is not None else generate(shard, nshards, seed, budget, deep, scale)
     stats = collections.Counter()
     viol = []
     samples = []
@@ -183,12 +291,18 @@ def worker(arg):
             top = next((fr for fr in rep["frames"] if "asmjit" in fr), rep["frames"][0] if rep["frames"] else "?").split("(")[0][:80]
         viol.append(("sanitizer:%s:%s" % ((rep or {"kind": "crash rc=%d" % rc})["kind"].split(" on ")[0][:50], top),
                      "sanitizer/crash while emitting: %s ; case: %s" % (rep, lines[lo]), lines[lo]))
-        return dict(stats=dict(stats), viol=viol, samples=samples, distinct=[], ncases=len(cases), forms=0, refused=0)
+        return dict(stats=dict(stats), viol=_attach(viol, cases), samples=samples, distinct=[], ncases=len(cases), forms=0, refused=0)
     results = [json.loads(l) for l in out.decode().splitlines()]
     if len(results) != len(cases):
         raise common.HarnessError("driver returned %d records for %d cases" % (len(results), len(cases)))
     forms_accepted = set()
     for c, r in zip(cases, results):
+        for dim in dims_of(c, forms[c["form"]]):
+            stats["dim_gen_" + dim] += 1
+        if UNENCODABLE.match(c["variant"]):
+            stats["unenc_generated"] += 1
+            if r["err"] != 0:
+                stats["unenc_refused"] += 1
         if r["err"] == 0:
             forms_accepted.add((c["form"], c["arch"]))
             if r["oneshot"] or r["h"]:
@@ -200,10 +314,18 @@ def worker(arg):
     for mode in (64, 32):
         arch = "x64" if mode == 64 else "x86"
         idx = [i for i, c in enumerate(cases) if c["arch"] == arch]
-        judge_mode([cases[i] for i in idx], [results[i] for i in idx], forms, byname, mode, stats, viol, samples)
+        judge_mode([cases[i] for i in idx], [results[i] for i in idx], forms, byname, mode, stats, viol, samples, round11=True)
     distinct = list(stats.pop("_distinct", set()))
-    return dict(stats=dict(stats), viol=viol[:4000], samples=samples, distinct=distinct, ncases=len(cases),
+    return dict(stats=dict(stats), viol=_attach(viol[:4000], cases), samples=samples, distinct=distinct, ncases=len(cases),
                 forms=len(forms_accepted), refused=stats.get("refused", 0))
+
+
+def _attach(viol, cases):
+    """(key, what, line) -> (key, what, line, case dict): the replay file stores the case itself"""
+    by_line = {}
+    for c in cases:
+        by_line.setdefault(G.case_line(c), c)
+    return [(k, w, l, by_line.get(l)) for k, w, l in viol]
 
 
 def run(tier, args):
@@ -214,7 +336,16 @@ def run(tier, args):
         budget, deep, nshards = max(2, int(12 * args.scale)), False, 16
     else:
         budget, deep, nshards = None, True, 64
-    jobs = [(s, nshards, chk.seed, budget, deep, exe, None) for s in range(nshards)]
+    if args.replay:
+        rp = json.load(open(args.replay))
+        rcases = [_tuplify(c) for c in rp["case"].get("dicts") or []]
+        if not rcases:
+            raise common.HarnessError("replay file carries no case")
+        for i, c in enumerate(rcases):
+            c["id"] = i
+        jobs = [(0, 1, chk.seed, None, False, exe, rcases, 1.0)]
+    else:
+        jobs = [(s, nshards, chk.seed, budget, deep, exe, None, args.scale) for s in range(nshards)]
     with multiprocessing.Pool(16) as pool:
         outs = pool.map(worker, jobs, chunksize=1)
     stats = collections.Counter()
@@ -228,11 +359,20 @@ def run(tier, args):
         samples += o["samples"][:1]
         ncases += o["ncases"]
         forms_accepted += o["forms"]
-        for key, what, line in o["viol"]:
-            byk.setdefault(key, []).append((what, line))
+        for key, what, line, cd in o["viol"]:
+            byk.setdefault(key, []).append((what, line, cd))
     for key, lst in byk.items():
         chk.violation(key, lst[0][0] + (" [+%d more cases of this class]" % (len(lst) - 1) if len(lst) > 1 else ""),
-                      {"cases": [l for _, l in lst[:20]]})
+                      {"cases": [l for _, l, _ in lst[:20]], "dicts": [cd for _, _, cd in lst[:20] if cd]})
+    dims = {d: {"generated": stats["dim_gen_" + d], "accepted": stats["dim_acc_" + d], "judged": stats["dim_judged_" + d]} for d in DIMS}
+    unenc = {"generated": stats["unenc_generated"], "refused": stats["unenc_refused"],
+             "accepted_as_another_form_and_judged": stats["unenc_in_another_form"], "accepted_unencodable": stats["unenc_accepted"]}
+    if not args.replay and args.scale >= 0.5:
+        dead = [d for d in DIMS if not dims[d]["judged"]]
+        if dead:
+            raise common.HarnessError("extended dimension(s) judged nothing: %s" % ", ".join(dead))
+        if not unenc["generated"] or not (unenc["refused"] + unenc["accepted_as_another_form_and_judged"] + unenc["accepted_unencodable"]):
+            raise common.HarnessError("no out-of-form immediate / broadcast probe was observed")
     chk.coverage.update({
         "evaluations": ncases,
         "distinct_nontrivial": len(distinct),
@@ -245,11 +385,17 @@ def run(tier, args):
         "length_mismatches": stats["len_mismatch"], "undecodable": stats["undecodable"],
         "accepted_without_any_decoder": stats["no_decoder"],
         "judged_by_at_least_one_oracle": stats["judged"],
+        "extended_dimensions": dims,
+        "out_of_form_probes": unenc,
+        "optimize_for_size_rewrites_judged_as_the_r32_instruction": stats["optsize_rewrites_judged"],
     })
     chk.assumptions += [
         "GNU objdump 2.40 and LLVM 14 as independent decoders/assembler; a form neither knows gets only the database-rule verdict",
         "vlib/xdec.py (our decoder) and vlib/x86text.py (our renderer) are trusted harness code; LLVM refusing our text is 'no verdict'",
         "UBSan shift-base check disabled: the tree relies on arithmetic shifts of negative values (defined since C++20, implemented so by gcc)",
         "rel8/rel32 operands reference a label bound immediately before the instruction; other label distances belong to C03",
+        "a call that omits the implicit operands (mul rcx, jecxz L) is judged against every database form of the mnemonic that the explicit operands fit: which implicit register size is meant is not part of the input",
+        "EncodingOptions::kOptimizeForSize: the documented mov/and r64,imm -> r32 rewrite is judged as the r32 instruction; kPredictedJumps: kTaken/kNotTaken on a conditional jump must give 3E/2E, and nothing anywhere else",
+        "InstOptions::kX86_ModMR/kX86_ModRM cases whose bytes the database rule rejects but objdump and llvm-mc agree on are accepted (the sibling opcode's database record may list only the memory operand)",
     ]
     return chk.finish()
